@@ -257,6 +257,10 @@ def run(ctx, rep):
                           "sees a gap or an overlap (%s)" % why, where=g.where(n))
     rep.floor("R05.3", "chunk creation in Op(open)", found, 1)
 
+    # ---------------- R05.5 -------------------------------------------------------------
+    import c10
+    c10.r10_5(ctx, rep, M, rule="R05.5")
+
     # ---------------- R05.4 -------------------------------------------------------------
     # a crash between two unlinks must leave a gap-free suffix: oldest-first removal (C08's R08.1/R08.5 evaluated here too)
     rep.rule("R05.4", "chunk files are unlinked only by the worker and oldest-first, so a crash during removal leaves a gap-free suffix")
